@@ -146,6 +146,9 @@ def step? (ins : List String) : List String → Option Step
   | ["in", gs] => (groups? gs ins).map .in_
   | ["matches", ps] => (pairs? ps ins).map .matchPairs
   | ["again"] => some .again
+  | ["applyval", tok] => (valOf tok).map .apply
+  | ["lookup", name, found] => some (.lookup (if name = "-" then "" else name) (found = "1"))
+  | ["as", ci, co] => (sig? ci co "0").map .asFn
   | _ => none
 
 def steps? (ins : List String) (toks : List String) : Option (List Step) := (splitSemi toks).mapM (step? ins)
@@ -156,6 +159,14 @@ def behIface (s : IS) : String :=
     | .whenFn => match s.when with
       | some w => if w.anyHit || w.hasDefault then "stub" else "nomatch"
       | none => "nomatch"
+
+def trailStr (rs : List (R Unit)) : String :=
+  String.intercalate "," (rs.map (fun r => match r with | .ok _ => "ok" | .error e => s!"rej:{clsName e.cls}"))
+
+/-- what every method of the interface does when called through the variable: only the named one is ever mocked -/
+def methStr (s : IS) (name names : String) : String :=
+  if !s.set then "nil" else
+  String.intercalate "," ((list? names).map (fun n => if n = name then s!"{n}:{behIface s}" else s!"{n}:unimpl"))
 
 def handleSeq (toks : List String) : Option String :=
   match toks with
@@ -175,11 +186,36 @@ def handleSeq (toks : List String) : Option String :=
       let acc := match r with | .ok _ => true | .error _ => false
       some s!"{resStr r} step={i} before={behName (behOf .orig a)} diff={diffStr a.g b.g 0 none acc} beh={behName (behOf .orig b)} reg={regName b.g 0}"
     | _, _ => some "bad-op"
-  | "c13" :: "seqi" :: _name :: mins :: mouts :: ci :: co :: st =>
+  | "c13" :: "seqi" :: name :: names :: mins :: mouts :: ci :: co :: st =>
     match sig? mins mouts "0", sig? ci co "0", steps? ((list? ci).drop 1) st with
     | some m, some fn, some steps =>
-      let (a, b, r, i) := runIfaceSeq m fn ⟨false, none, .none⟩ steps 0
-      some s!"{resStr r} step={i} before={behIface a} beh={behIface b} var={if b.set then "set" else "nil"}"
+      let (a, b, r, i) := runIfaceSeq m ⟨false, none, .none, fn⟩ steps 0
+      some s!"{resStr r} step={i} before={behIface a} beh={behIface b} var={if b.set then "set" else "nil"} meth={methStr b name names}"
+    | _, _, _ => some "bad-op"
+  | "c13" :: "rtf" :: tgt :: ins :: outs :: var :: pre :: st =>
+    match tgtId tgt, sig? ins outs var, steps? (list? ins) st with
+    | some t, some s, some steps =>
+      let g0 := if pre = "1" then preState t else G.init
+      let b0 : Beh := if pre = "1" then .cb else .orig
+      let (a, b, rs) := runAll { id := t, sig := s } false 901 ⟨g0, none, .none⟩ steps 0
+      let r := rs.getLast?.getD (pure ())
+      let acc := match r with | .ok _ => true | .error _ => false
+      some s!"{resStr r} trail={trailStr rs} before={behName (behOf b0 a)} diff={diffStr a.g b.g t none acc} beh={behName (behOf b0 b)} reg={regName b.g t}"
+    | _, _, _ => some "bad-op"
+  | "c13" :: "rtm" :: _name :: ins :: outs :: var :: st =>
+    match sig? ins outs var, steps? ((list? ins).drop 1) st with
+    | some s, some steps =>
+      let (a, b, rs) := runAll { id := 0, sig := s } true 901 ⟨G.init, none, .none⟩ steps 0
+      let r := rs.getLast?.getD (pure ())
+      let acc := match r with | .ok _ => true | .error _ => false
+      some s!"{resStr r} trail={trailStr rs} before={behName (behOf .orig a)} diff={diffStr a.g b.g 0 none acc} beh={behName (behOf .orig b)} reg={regName b.g 0}"
+    | _, _ => some "bad-op"
+  | "c13" :: "rti" :: name :: names :: mins :: mouts :: ci :: co :: st =>
+    match sig? mins mouts "0", sig? ci co "0", steps? ((list? ci).drop 1) st with
+    | some m, some fn, some steps =>
+      let (a, b, rs) := runIfaceAll m ⟨false, none, .none, fn⟩ steps
+      let r := rs.getLast?.getD (pure ())
+      some s!"{resStr r} trail={trailStr rs} before={behIface a} beh={behIface b} var={if b.set then "set" else "nil"} meth={methStr b name names}"
     | _, _, _ => some "bad-op"
   | _ => none
 
@@ -225,7 +261,10 @@ def handle (toks : List String) : Option String :=
     | none => some "bad-op"
   | "c13" :: "iface" :: vk :: name :: found :: mins :: mouts :: act =>
     let v? : Option IfaceVar := match vk with
-      | "ok" => some .ptrIface | "nonptr" => some (.value .strct) | "int" => some (.value .int)
+      | "ok" => some .ptrIface | "nonptr" => some (.value .strct false) | "int" => some (.value .int false)
+      | "slice" => some (.value .slice (found = "1")) | "array" => some (.value .array (found = "1"))
+      | "map" => some (.value .map (found = "1")) | "chan" => some (.value .chan (found = "1"))
+      | "func" => some (.value .func false) | "pptr" => some (.ptrTo .ptr false) | "nilv" => some .nilValue
       | "pint" => some (.ptrTo .int false) | "pstruct" => some (.ptrTo .strct (found = "1")) | _ => none
     let a? : Option IfaceAction := match act with
       | ["apply", ci, co] => (sig? ci co "0").map (fun s => .apply (.fn s))
